@@ -19,6 +19,17 @@ import (
 	"io"
 )
 
+// _maxPrealloc bounds what is allocated up front on the word of a length
+// declared in the input; anything longer grows as the data actually arrives.
+const _maxPrealloc = 1024
+
+func minInt(a, b int) int {
+	if a < b {
+		return a
+	}
+	return b
+}
+
 func lowerName(name string) (string, error) {
 	if name[0] >= 'a' && name[0] <= 'z' {
 		return name, nil
